@@ -12,7 +12,12 @@ package x11fw
 // outer: pins the request context of the case (the upstreams read the request
 // tree's work ledger through it at the moment a packet arrives), pre-exhausts
 // the attempt-guard tuples the behaviour lists, and observes what failover
-// hands up.  inner: observes what the forwarder writes into failover.
+// hands up.  inner: observes what the forwarder writes into failover; for a
+// behaviour with `prework` it first spends that non-outbound budget of the
+// REAL request-tree ledger the way validation / sub-queries do (one debit per
+// operation) and, once the ledger refuses, answers as resolver.DNSHandler
+// answers a refused resolution - the primary below failover has then failed on
+// a budget while the outbound counter is untouched.
 
 import (
 	"context"
@@ -37,6 +42,7 @@ import (
 	"github.com/miekg/dns"
 	"github.com/semihalev/sdns/config"
 	"github.com/semihalev/sdns/internal/contextutil"
+	"github.com/semihalev/sdns/internal/dnsutil"
 	"github.com/semihalev/sdns/middleware"
 	"github.com/semihalev/sdns/middleware/defaults"
 	"github.com/semihalev/sdns/middleware/forwarder"
@@ -56,6 +62,7 @@ type msgRec struct {
 	Rc   string `json:"rc"`
 	Mark string `json:"mark"`
 	Ok   bool   `json:"ok"`
+	ID   string `json:"id"` // whose transaction ID the model's message carries: client | own
 }
 
 type expect struct {
@@ -75,6 +82,12 @@ type faultCase struct {
 	Pre    [][]any  `json:"pre"`    // [[server, proto], ...] guard tuples exhausted on arrival
 	Expect *expect  `json:"expect,omitempty"`
 	Dup    int      `json:"dup"`    // extra identical clients in flight
+	// the non-outbound budget the primary resolution is rejected on ("" / "none": no such work):
+	// internal | dnskey | rrsig | signature | dsdigest | nsec3 | crypto
+	PreWork string `json:"prework,omitempty"`
+	// the upstreams decorate what they send: AD=1 and, when asked with an OPT, options of their own (a client
+	// subnet with a scope, a server cookie, keepalive, padding, a local-use option) - none of it is the client's
+	UpOpts bool `json:"upopts,omitempty"`
 	Client int      `json:"client"` // client shape selector (entry path, transport, EDNS options)
 }
 
@@ -106,6 +119,9 @@ type written struct {
 	CtxDone bool   `json:"ctxDone"`
 	RD      bool   `json:"rd"`
 	EDE     []int  `json:"ede"`
+	MsgID   uint16 `json:"msgId"` // the transaction ID of the message written at this layer ...
+	ReqID   uint16 `json:"reqId"` // ... and of the client request it answers
+	Work    string `json:"work"`  // the budget the ledger latched as the tree's first rejection ("" = none)
 }
 
 type caseRun struct {
@@ -182,6 +198,24 @@ func optOf(req *dns.Msg, m *dns.Msg) {
 	}
 }
 
+// decorate: an upstream that speaks for itself (UpOpts).  What it adds is addressed to the server's own query.
+func (u *upstream) decorate(m *dns.Msg) *dns.Msg {
+	cr := u.w.lookup(strings.ToLower(strings.TrimPrefix(strings.ToLower(m.Question[0].Name), "other-")))
+	if cr == nil || !cr.c.UpOpts || cr.honest.Load() {
+		return m
+	}
+	m.AuthenticatedData = true
+	if o := m.IsEdns0(); o != nil {
+		o.Option = append(o.Option,
+			&dns.EDNS0_SUBNET{Code: dns.EDNS0SUBNET, Family: 1, SourceNetmask: 24, SourceScope: 24, Address: net.IPv4(192, 0, 2, 0)},
+			&dns.EDNS0_COOKIE{Code: dns.EDNS0COOKIE, Cookie: "fedcba9876543210" + "00112233445566778899aabbccddeeff"},
+			&dns.EDNS0_TCP_KEEPALIVE{Code: dns.EDNS0TCPKEEPALIVE, Timeout: 300},
+			&dns.EDNS0_PADDING{Padding: make([]byte, 8)},
+			&dns.EDNS0_LOCAL{Code: 65002, Data: []byte("upstream-private")})
+	}
+	return m
+}
+
 func (u *upstream) answer(req *dns.Msg, proto string, kind byte, name string) *dns.Msg {
 	m := new(dns.Msg)
 	m.SetReply(req)
@@ -192,7 +226,7 @@ func (u *upstream) answer(req *dns.Msg, proto string, kind byte, name string) *d
 	m.Answer = []dns.RR{&dns.A{Hdr: dns.RR_Header{Name: name, Rrtype: dns.TypeA, Class: dns.ClassINET, Ttl: 60},
 		A: markerIP(kind, u.idx, proto)}}
 	optOf(req, m)
-	return m
+	return u.decorate(m)
 }
 
 func (u *upstream) rcode(req *dns.Msg, rc int) *dns.Msg {
@@ -204,7 +238,7 @@ func (u *upstream) rcode(req *dns.Msg, rc int) *dns.Msg {
 			Txt: []string{fmt.Sprintf("srv=%d", u.idx)}})
 	}
 	optOf(req, m)
-	return m
+	return u.decorate(m)
 }
 
 func (u *upstream) truncated(req *dns.Msg) *dns.Msg {
@@ -795,7 +829,7 @@ func (p *outerProbe) ServeDNS(ctx context.Context, ch *middleware.Chain) {
 	cr.ctxs = append(cr.ctxs, ctx)
 	cr.mu.Unlock()
 	w := ch.Writer
-	ch.Writer = &obsWriter{ResponseWriter: w, ctx: ctx, cr: cr, into: &cr.outer}
+	ch.Writer = &obsWriter{ResponseWriter: w, ctx: ctx, cr: cr, into: &cr.outer, reqID: req.Id}
 	defer func() { ch.Writer = w }()
 	ch.Next(ctx)
 }
@@ -805,15 +839,72 @@ type innerProbe struct{ w *world }
 func (p *innerProbe) Name() string { return "x11fw-inner" }
 
 func (p *innerProbe) ServeDNS(ctx context.Context, ch *middleware.Chain) {
-	cr, _ := caseOf(p.w, ch)
+	cr, req := caseOf(p.w, ch)
 	if cr == nil {
 		ch.Next(ctx)
 		return
 	}
 	w := ch.Writer
-	ch.Writer = &obsWriter{ResponseWriter: w, ctx: ctx, cr: cr, into: &cr.inner}
+	ow := &obsWriter{ResponseWriter: w, ctx: ctx, cr: cr, into: &cr.inner, reqID: req.Id}
+	ch.Writer = ow
 	defer func() { ch.Writer = w }()
+	if kind, ok := workKinds[cr.c.PreWork]; ok && !cr.honest.Load() {
+		if err := spendWork(ctx, kind); err != nil {
+			// resolver.DNSHandler.handle on a resolution error: SERVFAIL + the error's EDE, request-local provenance
+			do := false
+			if opt := req.IsEdns0(); opt != nil {
+				do = opt.Do()
+			}
+			edeCode, edeText := dnsutil.ErrorToEDE(err)
+			resp := dnsutil.SetRcodeWithEDE(req, dns.RcodeServerFailure, do, edeCode, edeText)
+			if middleware.IsRequestLocalResolutionError(err) {
+				middleware.MarkRequestLocalFailureResponse(ctx, resp, err)
+			}
+			_ = ow.WriteMsg(resp)
+			return
+		}
+	}
 	ch.Next(ctx)
+}
+
+// the ledger's non-outbound budgets, by the model's names
+var workKinds = map[string]middleware.RecursionWorkKind{
+	"internal":  middleware.RecursionWorkInternalQuery,
+	"dnskey":    middleware.RecursionWorkDNSKEYCandidate,
+	"rrsig":     middleware.RecursionWorkRRsetSignature,
+	"signature": middleware.RecursionWorkSignature,
+	"dsdigest":  middleware.RecursionWorkDSDigest,
+	"nsec3":     middleware.RecursionWorkNSEC3Hash,
+	"crypto":    middleware.RecursionWorkConcurrentCrypto,
+}
+
+var workNames = func() map[middleware.RecursionWorkKind]string {
+	m := map[middleware.RecursionWorkKind]string{middleware.RecursionWorkOutboundQuery: "outbound"}
+	for n, k := range workKinds {
+		m[k] = n
+	}
+	return m
+}()
+
+// spendWork debits the request tree's real ledger through the production entry points until it refuses (enforce) or
+// well past every default cap (shadow / off: nothing refuses): aggregate kinds one Debit per operation, per-object
+// kinds the n-th item of one object, the crypto governor a rejection without a counter.
+func spendWork(ctx context.Context, kind middleware.RecursionWorkKind) error {
+	for i := uint32(0); i < 80; i++ {
+		var err error
+		switch kind {
+		case middleware.RecursionWorkDNSKEYCandidate, middleware.RecursionWorkRRsetSignature:
+			err = middleware.CheckRecursionWorkLocalLimit(ctx, kind, i)
+		case middleware.RecursionWorkConcurrentCrypto:
+			err = middleware.RejectRecursionWork(ctx, kind)
+		default:
+			err = middleware.DebitRecursionWork(ctx, kind)
+		}
+		if err != nil {
+			return err
+		}
+	}
+	return nil
 }
 
 type obsWriter struct {
@@ -821,16 +912,26 @@ type obsWriter struct {
 	ctx  context.Context //nolint:containedctx
 	cr   *caseRun
 	into *written
+	// the transaction ID of the client request (taken on the way down)
+	reqID uint16
 }
 
 func describe(ctx context.Context, m *dns.Msg) written {
-	wr := written{Rcode: m.Rcode, RD: m.RecursionDesired}
+	wr := written{Rcode: m.Rcode, RD: m.RecursionDesired, MsgID: m.Id}
+	var lim *middleware.RecursionWorkLimitError
+	if errors.As(middleware.RecursionWorkEnforcementError(ctx), &lim) {
+		wr.Work = workNames[lim.Kind]
+	}
 	if err := middleware.RequestLocalFailureForResponse(ctx, m); err != nil {
 		switch {
 		case errors.Is(err, middleware.ErrResolutionAttemptLimit):
 			wr.Mark = "attempt"
 		case errors.Is(err, context.DeadlineExceeded), errors.Is(err, context.Canceled):
 			wr.Mark = "deadline"
+		case errors.Is(err, middleware.ErrRecursionWorkLimit):
+			// the resolver marks its over-budget SERVFAIL with the policy error; the model's workfail has no mark of
+			// its own (the latched ledger is its provenance)
+			wr.Mark = "none"
 		default:
 			wr.Mark = "other:" + err.Error()
 		}
@@ -885,6 +986,7 @@ func describe(ctx context.Context, m *dns.Msg) written {
 func (o *obsWriter) WriteMsg(m *dns.Msg) error {
 	wr := describe(o.ctx, m)
 	wr.Seq = evSeq.Add(1)
+	wr.ReqID = o.reqID
 	o.cr.mu.Lock()
 	wr.N = o.into.N + 1
 	if o.into.N == 0 {
